@@ -44,6 +44,7 @@ from jpsim.runner import ddmin_list
 from jpsim.runner import simpler_json
 from jpsim.store import Store
 from jpsim.store import wrap
+from jpsim.threads import LockDeadlock
 from jpsim.threads import ThreadSched
 
 PROPERTY = "C09"
@@ -500,12 +501,14 @@ def _sync_op(w: World, ctx: Ctx, cid: int, op: List[Any], yield_point: Any = Non
     kind = op[0]
     if kind == "gc":
         gc.collect(1)
+        ctx.count("fault.gc.configured")
         ctx.count("fault.gc.fired")
         ctx.log.add("gc", cid)
         ctx.state("iter", "-", "gc")
         return None
     if kind == "repurge":
         re.purge()
+        ctx.count("fault.repurge.configured")
         ctx.count("fault.repurge.fired")
         ctx.log.add("repurge", cid)
         if any(w.uses_regex_fn):
@@ -889,11 +892,16 @@ def _run_threads(spec: Dict[str, Any], ctx: Ctx) -> None:
         if gc_was:
             gc.enable()
     ctx.steps += sched.steps
+    ctx.count("fault.preempt.configured", sched.offers)
     ctx.count("thread_switches", sched.switches)
     ctx.count("traced_lines", sched.steps)
+    ctx.count("lock_waits", sched.lock_waits)
     for e in errors:
         if isinstance(e, Violation):
             raise e
+    for e in errors:
+        if isinstance(e, LockDeadlock):
+            raise Violation("C09.completes", f"simulated threads deadlocked on a lock of the library: {e}", "C09.completes:lock-deadlock")
     for e in errors:
         raise core.HarnessError(f"exception in simulated thread: {type(e).__name__}: {e}")
     w.check_world("all threads finished", full=True)
